@@ -85,4 +85,32 @@ theorem decodeSeqAll_framed (cfg : Cfg) (dict : Lookup) :
     | err e => simp only [COut.ofDec, ih']
     | panic => exact absurd hdm hnp0
 
+
+/-- the same with anything behind the frames: after the frames the calls go on with a script that delivers exactly the rest -/
+theorem decodeSeqAll_prefix (cfg : Cfg) (dict : Lookup) :
+    ∀ (frames : List Bytes) (evs : List REv) (more : Bytes) (k : Nat),
+    (∀ f ∈ frames, Framed f) → (∀ f ∈ frames, decMsg cfg dict f ≠ .panic) →
+    noEmpty evs → flat evs = frames.flatten ++ more →
+    ∃ evs', decodeSeqAll cfg dict (frames.length + k) evs =
+        frames.map (fun f => (COut.ofDec (decMsg cfg dict f), f.length)) ++ decodeSeqAll cfg dict k evs' ∧
+      flat evs' = more ∧ noEmpty evs' := by
+  intro frames
+  induction frames with
+  | nil => intro evs more k _ _ hne hflat; exact ⟨evs, by simp, by simpa using hflat, hne⟩
+  | cons f fs ih =>
+    intro evs more k hfr hnp hne hflat
+    obtain ⟨evs1, hd, hf1, hne1⟩ := Codec.decode_framed cfg dict evs f (fs.flatten ++ more) hne
+      (by simpa [List.append_assoc] using hflat) (hfr f (by simp))
+    obtain ⟨evs2, ih', hf2, hne2⟩ := ih evs1 more k (fun g hg => hfr g (by simp [hg]))
+      (fun g hg => hnp g (by simp [hg])) hne1 hf1
+    have hnp0 := hnp f (by simp)
+    refine ⟨evs2, ?_, hf2, hne2⟩
+    have hk : (f :: fs).length + k = (fs.length + k) + 1 := by simp; omega
+    rw [hk]
+    simp only [decodeSeqAll, hd, List.map_cons, List.cons_append]
+    cases hdm : decMsg cfg dict f with
+    | ok m => simp only [COut.ofDec, ih']
+    | err e => simp only [COut.ofDec, ih']
+    | panic => exact absurd hdm hnp0
+
 end Dia
